@@ -57,7 +57,7 @@ CHECKS = {
    "Discipline enforced by the generator and re-validated during minimisation.",
    "deterministic simulation: single-delete discipline history vs reference model", "4/C13"),
  "C14": ("seq", "exploration",
-   "Ingestion interleaved with writes between ingestion() and finish(), snapshots before/in between/after, flush/compact/reopen.",
+   "Ingestion interleaved with writes between ingestion() and finish(), snapshots before/in between/after, flush/compact/reopen. Every fourth run is a schedule run: an ingester thread (own key class, standard tree) next to a writer that also rotates, a flusher, compactors and readers that hold snapshots; every acknowledged write and every finished ingestion must be readable, ingested batches appear atomically.",
    "Ingested batch seqno read back as seqno counter - 1 after finish().",
    "deterministic simulation: ingestion history vs reference model", "4/C14"),
  "C15": ("seq", "exploration",
